@@ -5,7 +5,9 @@ several live models (two programs, a frozen deep copy, optionally a component sh
 parents), executed on the real objects; after every query the real answer is compared with (a) the
 answer of a fresh uncached rebuild (oracle) and (b) the version the Lean model `fstep` says the
 answer is computed from."""
+import contextlib
 import copy
+import io
 import json
 
 from common import VERIF
@@ -52,15 +54,55 @@ def reach(node):
     return out
 
 
-def fresh_answer(node):
+def fresh_answer(node, variant=0):
     """answers of an uncached, unfrozen rebuild of the same composition"""
     c = copy.deepcopy(node)
     c.unfreeze()
-    return answer(c)
+    return answer(c, variant)
 
 
-def answer(node):
-    return (node.prior_count, tuple(tuple(map(str, p)) for p in node.paths), len(node.unique_prior_tuples))
+def answer(node, variant=0):
+    base = (node.prior_count, tuple(tuple(map(str, p)) for p in node.paths), len(node.unique_prior_tuples))
+    if not variant:
+        return base
+    return base + (type_answers(node, variant),)
+
+
+def type_answers(node, variant):
+    """the type queries of a model (models_with_type / has / has_model / has_instance / is_only_model /
+    attribute_tuples_with_type) with both values of their keyword arguments; `variant` fixes the order
+    in which they are asked (on a frozen model the order must not matter), the answers are returned
+    in one canonical order"""
+    import random
+    import vlib
+    order = random.Random(variant)
+    classes = [vlib.P1, vlib.P2, vlib.P3, vlib.Nest, vlib.T2, object]
+    qs = []
+    for c in classes:
+        for z in (False, True):
+            qs.append(("models_with_type", c, z))
+            qs.append(("has_model", c, z))
+        qs += [("has", c, None), ("has_instance", c, None), ("is_only_model", c, None)]
+    for b in (False, True):
+        qs.append(("attribute_tuples_with_type", Model, b))
+        qs.append(("attribute_tuples_with_type", Prior, b))
+    order.shuffle(qs)
+    qs = qs[: 6 + variant % 14]
+    out = []
+    for q, c, z in qs:
+        try:
+            if q == "models_with_type":
+                r = tuple((m.cls.__name__, m.prior_count) for m in node.models_with_type(c, include_zero_dimension=z))
+            elif q == "has_model":
+                r = node.has_model(c, include_zero_dimension=z)
+            elif q == "attribute_tuples_with_type":
+                r = tuple(str(n) for n, _ in node.attribute_tuples_with_type(c, ignore_children=z))
+            else:
+                r = getattr(node, q)(c)
+        except Exception as e:  # noqa
+            r = "raised:" + type(e).__name__
+        out.append((q, c.__name__, z, r))
+    return tuple(sorted(out, key=lambda t: (t[0], t[1], str(t[2]))))
 
 
 def modifiable(node):
@@ -102,7 +144,12 @@ def one_case(ctx, progs, label="gen", script=None):
             roots[1].shared_component = kids[0]
     if setup["copy"]:
         roots[0].freeze()
-        answer(roots[0])
+        try:
+            answer(roots[0])
+        except Exception as e:  # noqa
+            ctx.fail("C13-query-raises", "a query on a freshly frozen model raised (after earlier, unrelated operations in this process)",
+                     {"programs": progs, "setup": setup, "ops": [], "label": label}, type(e).__name__ + ":" + str(e)[:80])
+            return
         roots.append(copy.deepcopy(roots[0]))
         roots[0].unfreeze()
     for r in roots:
@@ -127,7 +174,7 @@ def one_case(ctx, progs, label="gen", script=None):
             r = rng.random()
             tgt = rng.choice(root_ix) if rng.random() < 0.45 else rng.randrange(len(nodes))
             if r < 0.38:
-                ops.append(["query", tgt])
+                ops.append(["query", tgt, rng.choice([0, rng.randrange(1, 1000)])])
             elif r < 0.52:
                 ops.append(["freeze", tgt])
             elif r < 0.64:
@@ -137,22 +184,24 @@ def one_case(ctx, progs, label="gen", script=None):
                 if cands:
                     ops.append(["modify", rng.choice(cands)])
             elif r < 0.94:
-                ops.append(["failing", rng.choice(root_ix)])
+                ops.append(["failing", rng.choice(root_ix), rng.randrange(3)])
             else:
                 ops.append(["pass", tgt])
 
     # ---- real execution
     real = []
     fresh = []
-    for kind, i in ops:
+    for op in ops:
+        kind, i = op[0], op[1]
+        extra = op[2] if len(op) > 2 else 0
         node = nodes[i]
         if kind == "query":
             try:
-                real.append(("answered", answer(node)))
+                real.append(("answered", answer(node, extra)))
             except Exception as e:
                 real.append(("raised", type(e).__name__ + ":" + str(e)[:80]))
             try:
-                fresh.append(fresh_answer(node))
+                fresh.append(fresh_answer(node, extra))
             except Exception as e:
                 fresh.append(("fresh-raised", type(e).__name__))
         elif kind == "freeze":
@@ -169,11 +218,16 @@ def one_case(ctx, progs, label="gen", script=None):
                 real.append("rejected")
             fresh.append(None)
         elif kind == "failing":
-            Flaky.bad = True
+            Flaky.bad = extra == 0
             try:
-                node.paths
+                if extra == 0:
+                    node.paths
+                elif extra == 1:
+                    node.has_instance("not a type")  # a user error inside the recursive walk
+                else:
+                    node.attribute_tuples_with_type(["not", "a", "type"])
                 real.append("no-failure")
-            except RuntimeError:
+            except (RuntimeError, TypeError):
                 real.append("done")
             except Exception as e:
                 real.append("raised:" + type(e).__name__)
@@ -187,28 +241,30 @@ def one_case(ctx, progs, label="gen", script=None):
                 fresh_pass = None
             try:
                 n_par = node.prior_count if not node._is_frozen else len({p.id for _, p in node.path_priors_tuples})
-                node.mapper_from_prior_means([0.5] * n_par, a=1.0)
+                with contextlib.redirect_stdout(io.StringIO()):  # autoconf prints a blank line per missing config
+                    node.mapper_from_prior_means([0.5] * n_par, a=1.0)
             except Exception:
                 pass
             real.append("done"); fresh.append(fresh_pass)
 
     # ---- model
     # prior passing reads the (cached) parameter order of the node: for the cache it is a query
-    model_ops = [[("query" if k == "pass" else k), i] for k, i in ops]
+    model_ops = [[("query" if o[0] == "pass" else o[0]), o[1]] for o in ops]
     ans = ctx.lean.ask({"p": "C13", "sub": sub, "anc": anc, "init_frozen": init_frozen, "ops": model_ops})
     case = {"programs": progs, "setup": setup, "ops": ops, "label": label}
     if "driver_error" in ans:
         ctx.disagree("driver", case, None, ans)
         return
-    kinds = [k for k, _ in ops]
+    kinds = [o[0] for o in ops]
     nontrivial = "freeze" in kinds and "modify" in kinds[kinds.index("freeze"):] and "query" in kinds
     ctx.case({"sub": sub, "ops": ops, "frozen": init_frozen}, nontrivial=nontrivial,
              sample={"nodes": len(nodes), "roots": root_ix, "ops": ops[:12], "shared": setup["share"], "copy": setup["copy"]})
     unsafe_seen = False
     fresh_by_version = {}
     cur_version = {}
-    for j, ((kind, i), r, mo, safe) in enumerate(zip(ops, real, ans["outs"], ans["safe"])):
-        ctx.hit("op:" + kind)
+    for j, (op, r, mo, safe) in enumerate(zip(ops, real, ans["outs"], ans["safe"])):
+        kind, i = op[0], op[1]
+        ctx.hit("op:" + kind + (":types" if kind == "query" and len(op) > 2 and op[2] else ""))
         if kind == "unfreeze" and not safe:
             unsafe_seen = True
             ctx.hit("unsafe-unfreeze")
@@ -216,8 +272,8 @@ def one_case(ctx, progs, label="gen", script=None):
             v = mo["answered"]
             # the model's current version of node i: replay bookkeeping from modify outcomes
             cur = cur_version.get(i, 0)
-            fresh_by_version.setdefault((i, cur), fresh[j])
-            expected = fresh_by_version.get((i, v), fresh[j])
+            fresh_by_version.setdefault((i, cur), fresh[j][:3])
+            expected = fresh_by_version.get((i, v), fresh[j][:3])
             if r[0] != "answered":
                 cls = "C13-query-raises"
                 ctx.fail(cls, "a query raised after an earlier operation", dict(case, at=j), r[1])
@@ -227,10 +283,14 @@ def one_case(ctx, progs, label="gen", script=None):
                 ctx.fail("C13-child-unfreeze" if unsafe_seen else "C13-stale-answer",
                          "a model answers from an outdated composition (cached answer differs from an uncached rebuild)",
                          dict(case, at=j), {"node": i, "answer": str(r[1])[:200], "fresh": str(fresh[j])[:200]})
-            if r[1] != expected:
+            if unsafe_seen and r[1] != fresh[j]:
+                # after an unfreeze below a frozen parent (known finding) an unfrozen ancestor reads through the
+                # frozen parent's stale cache; the model tracks versions per frozen node only (A.5 of DESIGN.md)
+                ctx.hit("read-through-stale-after-unsafe-unfreeze")
+            elif r[1][:3] != expected:
                 ctx.disagree("C13.answer-version", dict(case, at=j), {"real": str(r[1])[:200]}, {"model_version": v, "current": cur, "expected": str(expected)[:200]})
         elif kind == "pass":
-            fresh_by_version.setdefault((i, cur_version.get(i, 0)), fresh[j])
+            fresh_by_version.setdefault((i, cur_version.get(i, 0)), fresh[j][:3] if fresh[j] else fresh[j])
         elif kind == "modify":
             if mo in ("done", "rejected") and r != mo:
                 frozen_now = bool(getattr(nodes[i], "_is_frozen", False))
